@@ -88,6 +88,12 @@ type Sim struct {
 
 	timers   int
 	expiries map[int64]struct{}
+
+	// OldTimers makes simrt.Timer emulate the timer channels of Go < 1.23
+	// (GODEBUG asynctimerchan=1, what a main module declaring go < 1.23 gets):
+	// a buffered channel of capacity 1 that Stop and Reset do not drain, so a
+	// tick that fired but was not received survives a Reset.
+	OldTimers bool
 }
 
 var cur atomic.Pointer[Sim]
@@ -827,3 +833,61 @@ func (g *WaitGroup) Wait() {
 		g.q.wait("wg.blocked")
 	}
 }
+
+// ---------------------------------------------------------------------------
+// Timer replaces time.Timer in the instrumented copy. With OldTimers unset it
+// is a thin wrapper around the native timer (Go >= 1.23 semantics, which is
+// what testing/synctest requires of the harness' own module). With OldTimers
+// set it emulates the pre-1.23 channel timers on top of time.AfterFunc.
+
+type Timer struct {
+	C   <-chan time.Time
+	c   chan time.Time
+	nt  *time.Timer
+	old bool
+}
+
+func NewTimer(d time.Duration) *Timer {
+	s := Active()
+	if s == nil || !s.OldTimers {
+		nt := time.NewTimer(d)
+		return &Timer{C: nt.C, nt: nt}
+	}
+	c := make(chan time.Time, 1)
+	t := &Timer{C: c, c: c, old: true}
+	fire := func() {
+		select {
+		case c <- time.Now():
+		default:
+		}
+	}
+	if d <= 0 {
+		// already expired: deliver synchronously (an AfterFunc goroutine would race
+		// with the creator's own receive and make the step sequence vary)
+		c <- time.Now()
+		t.nt = time.AfterFunc(time.Hour, fire)
+		t.nt.Stop()
+		return t
+	}
+	t.nt = time.AfterFunc(d, fire)
+	return t
+}
+
+// Stop reports whether the call stopped the timer before it fired. It never
+// drains the channel (in old mode a fired tick stays buffered).
+func (t *Timer) Stop() bool { return t.nt.Stop() }
+
+func (t *Timer) Reset(d time.Duration) bool {
+	if t.old && d <= 0 {
+		active := t.nt.Stop()
+		select {
+		case t.c <- time.Now():
+		default:
+		}
+		return active
+	}
+	return t.nt.Reset(d)
+}
+
+// After replaces time.After.
+func After(d time.Duration) <-chan time.Time { return NewTimer(d).C }
